@@ -28,7 +28,7 @@ def run(ctx):
     q = ctx.quick
     seeds = ctx.seeds(1, 2)
     rep.assumptions += ["noise classes {alt, LOW, HIGH} of size 0.5*(1+..) around smooth landscapes; seeds %s" % seeds,
-                        "either ddof accepted for the standard error; budgets below the initial design are outside the statement"]
+                        "standard-error convention measured on multi-sample runs; budgets below the initial design are outside the statement"]
     # the statement says "standard error" without fixing population vs sample SD: take the convention the implementation
     # shows with 3 and 5 final samples and hold *every* run to it (a single final sample gives a 2-element yval_vec)
     SEM["ddof"] = None
@@ -72,10 +72,10 @@ def run(ctx):
     med = [job(D, g, m, nfs, 62 + 8 * D, s, target=t) for D in ((1,) if q else (1, 2)) for g in ("lin", "log") for m in ("auto", "decl", "spec")
            for nfs in (0, 1, 3) for t in (("sphere_in",) if q else ("sphere_in", "sphere_corner")) for s in seeds]
     st = explore(med, ["noise"], 1, sink, stats=st, name="noise-scripts/b1", pos_ok=lambda k, p, r: (p % 2 == 0 and p >= 30) if q else True,
-                 cap=None if q else st["executions"] + 12000)
+                 cap=None if q else st["executions"] + 6000)
     if not q:
         st = explore([job(1, "lin", m, 1, 60, seeds[0]) for m in ("decl", "spec")], ["noise"], 2, sink, stats=st, name="noise-scripts/b2-window",
-                     pos_ok=lambda k, p, r: 34 <= p < 52, cap=st["executions"] + 8000)
+                     pos_ok=lambda k, p, r: 34 <= p < 52, cap=st["executions"] + 4000)
     # (c) noise-test cells (det/auto boundary)
     eps = float(np.spacing(1.0))
     cells = []
